@@ -381,7 +381,12 @@ pub fn test(r: &RawSyms, ev: &mut Ev, opts: &ModelOpts) -> Result<(), Violation>
         }
         (e, f) => {
             ev.discarded += 1;
-            ev.class(&format!("harness-inconsistent:expect_fail={}:{}", f, format!("{:?}", e).chars().take(100).collect::<String>()));
+            let why = match e {
+                Expect::Ok(_) => "model-accepts".to_string(),
+                Expect::Fail { reason, .. } => reason.split(' ').take(2).collect::<Vec<_>>().join("-"),
+                Expect::Unsure(_) => "unsure".to_string(),
+            };
+            ev.class(&format!("harness-inconsistent:intended_fail={}:{}", f, why));
             Ok(())
         }
     }
